@@ -95,9 +95,29 @@ COLL_OPS = [
 
 
 def all_ops(d):
-    base = [(o.name, o.args, o.fn) for o in O.ops_for(d)]
-    base += [(nm, args, fn) for nm, dims, args, fn in COLL_OPS if d in dims]
+    base = [(o.name, o.args, o.fn, o.cmp) for o in O.ops_for(d)]
+    base += [(nm, args, fn, "auto") for nm, dims, args, fn in COLL_OPS if d in dims]
     return base
+
+
+CORE_STATE = ("array", "_covariant_indices", "_contravariant_indices", "is_dual", "pdim")
+
+
+def fresh(o):
+    """an object with the same public state as o but without any history: only the documented state is copied, the cached
+    supporting line / plane of polytopes is recomputed from the vertices"""
+    if not isinstance(o, G.base.Tensor):
+        return o
+    n = type(o).__new__(type(o))
+    for k in CORE_STATE:
+        if k in o.__dict__:
+            n.__dict__[k] = o.__dict__[k]
+    n.array = o.array.copy()
+    if isinstance(o, O.ST):
+        n._line = G.join(*n.vertices)
+    elif isinstance(o, O.GT):
+        n._plane = G.join(*n.vertices[: n.dim]) if n.dim > 2 else None
+    return n
 
 
 OPS_BY_DIM = {d: all_ops(d) for d in (2, 3)}
@@ -157,6 +177,8 @@ class World:
         self.ops = OPS_BY_DIM[d]
         self.reused = False
         self.reask_gap = 0
+        self._compat = {}
+        self._nstored = 0
 
     def _run(self, fn, args):
         try:
@@ -167,6 +189,27 @@ class World:
             return ("ok", r)
         except Exception as e:  # noqa: BLE001
             return ("exc", type(e).__name__)
+
+    def _history_independent(self, name, fn, cmp, a, st_, r):
+        """the answer for objects that carry a history (earlier queries may have cached something on them, results of
+        earlier operations inherit attributes) must equal the answer for history-free objects with the same state"""
+        try:
+            b = [fresh(x) for x in a]
+        except Exception:  # noqa: BLE001
+            return
+        st2, r2 = self._run(fn, b)
+        if st_ != st2:
+            if "exc" in (st_, st2):
+                self.fails.append((Fail("MISMATCH", f"history-dependent-exception:{name}", f"{st_}:{r if st_ == 'exc' else ''} vs fresh {st2}:{r2 if st2 == 'exc' else ''}"), len(self.steps)))
+            return
+        if st_ == "exc":
+            return
+        c = cmp if cmp not in ("skip",) else "auto"
+        if c == "auto" and isinstance(r, (list, tuple)) and r and all(isinstance(x, G.base.Tensor) for x in r):
+            c = "multiset"
+        ok, detail = O.same(r, r2, c, 1e-6)
+        if not ok:
+            self.fails.append((Fail("MISMATCH", f"history-dependent:{name}", str(detail)[:300]), len(self.steps)))
 
     def _store(self, r):
         objs = []
@@ -180,31 +223,46 @@ class World:
 
         walk(r)
         for o in objs[:3]:
-            if len(self.results) < 12:
+            if len(self.results) < 16:
                 self.results.append((o, snap(o)))
+            else:
+                # ring buffer: later results replace the oldest ones so that long histories keep feeding derived objects
+                self.results[self._nstored % 16] = (o, snap(o))
+            self._nstored += 1
 
     def step(self, s):
         """execute one step description (JSON-able list)"""
         self.steps.append(s)
         kind = s[0]
         if kind == "op":
-            name, args, fn = self.ops[s[1] % len(self.ops)]
+            name, args, fn, cmp = self.ops[s[1] % len(self.ops)]
             a = [self.pool[n] for n in args]
             st_, r = self._run(fn, a)
             self.history.append((["op", s[1] % len(self.ops)], digest(r) if st_ == "ok" else "EXC:" + r))
+            self._history_independent(name, fn, cmp, a, st_, r)
             if st_ == "ok":
                 self._store(r)
             what = name
         elif kind == "alias":
-            name, args, fn = self.ops[s[1] % len(self.ops)]
+            # pick an earlier result first, then an operation that has an argument of that type (so that every alias
+            # step really operates on derived, possibly aliasing, data)
+            name, args, fn, cmp = self.ops[s[1] % len(self.ops)]
             a = [self.pool[n] for n in args]
             if self.results:
-                k = s[2] % len(a)
-                cands = [o for o, _ in self.results if type(o) is type(a[k]) and o.array.shape == a[k].array.shape]
+                res = self.results[s[3] % len(self.results)][0]
+                key = (type(res), res.array.shape)
+                if key not in self._compat:
+                    self._compat[key] = [(i, k) for i, (_, ar, _, _) in enumerate(self.ops) for k, n in enumerate(ar)
+                                         if type(self.pool[n]) is key[0] and self.pool[n].array.shape == key[1]]
+                cands = self._compat[key]
                 if cands:
-                    a[k] = cands[s[3] % len(cands)]
+                    i, k = cands[(s[1] * 7 + s[2]) % len(cands)]
+                    name, args, fn, cmp = self.ops[i]
+                    a = [self.pool[n] for n in args]
+                    a[k] = res
                     self.reused = True
             st_, r = self._run(fn, a)
+            self._history_independent(name + "(alias)", fn, cmp, a, st_, r)
             if st_ == "ok":
                 self._store(r)
             what = name + "(alias)"
@@ -227,7 +285,7 @@ class World:
             desc, dg = self.history[i]
             gap = len(self.history) - i
             if desc[0] == "op":
-                name, args, fn = self.ops[desc[1]]
+                name, args, fn, _cmp = self.ops[desc[1]]
                 st_, r = self._run(fn, [self.pool[n] for n in args])
                 what = "reask:" + name
             else:
@@ -346,9 +404,109 @@ def replay_case(case):
     return [f for f, _ in w.fails]
 
 
+# ------------------------------------------------------------------------------------------- query -> derive -> query
+FIXED_V = [[1, 6, 3, 0, 2, -6, -3, 5, -1, 1, -5, 4, 3, 4, 5, -3, -2, -1, 4, 2, -6, 1, 5, -4],
+           [2, -1, 0, 3, -4, 1, 5, 2, 3, -2, 1, 6, -1, 2, 4, 1, 3, -2, 2, 1, 3, -2, 1, 4]]
+
+
+def qdq_cases(tier, seed):
+    for d in (2, 3):
+        for vi in range(len(FIXED_V) if tier == "thorough" else 1):
+            try:
+                pool = extend_pool(d, O.pool_for(d, FIXED_V[vi]))
+            except Skip:
+                continue
+            for name in sorted(pool):
+                yield {"d": d, "vi": vi, "x": name, "tier": tier}
+
+
+def run_qdq(c):
+    """for the pool object X: every operation A that takes X (it may cache something on X), then every operation D that
+    derives an object of X's type from X (it may inherit what A cached), then every operation B that takes such an object:
+    B(derived) must equal B(history-free copy of derived)"""
+    from ..runner import Batch
+
+    d, x = c["d"], c["x"]
+    ops = OPS_BY_DIM[d]
+    v = FIXED_V[c["vi"]]
+    base = extend_pool(d, O.pool_for(d, v))
+    X = base[x]
+    if not isinstance(X, G.base.Tensor):
+        return Batch(0, 0, [], [])
+    users = [i for i, (_, ar, _, _) in enumerate(ops) if x in ar]
+    consumers = [(i, k) for i, (_, ar, _, _) in enumerate(ops) for k, n in enumerate(ar) if type(base[n]) is type(X) and base[n].array.shape == X.array.shape]
+    if c.get("tier", "quick") == "quick" and len(consumers) > 24:
+        consumers = consumers[:: len(consumers) // 24 + 1] + [cn for cn in consumers if ops[cn[0]][0] in ("q.dual", "q.is_tangent(not)", "polygon.area", "seg.midpoint")]
+    fails = []
+    n_eval = 0
+
+    def run(fn, a):
+        try:
+            r = fn(*a)
+            return ("ok", list(r) if hasattr(r, "__next__") else r)
+        except Exception as e:  # noqa: BLE001
+            return ("exc", type(e).__name__)
+
+    # operations that derive an object of X's type from X (found once on a scratch pool)
+    scratch = extend_pool(d, O.pool_for(d, v))
+    derivers = []
+    for idv in users:
+        st_, der = run(ops[idv][2], [scratch[n] for n in ops[idv][1]])
+        if st_ == "ok" and any(isinstance(y, G.base.Tensor) and type(y) is type(X) and y.array.shape == X.array.shape for y in (der if isinstance(der, (list, tuple)) else [der])):
+            derivers.append(idv)
+    for ia in users:
+        for idv in derivers:
+            pool = extend_pool(d, O.pool_for(d, v))
+            nA, aA, fA, _ = ops[ia]
+            run(fA, [pool[n] for n in aA])
+            nD, aD, fD, _ = ops[idv]
+            st_, der = run(fD, [pool[n] for n in aD])
+            if st_ != "ok":
+                continue
+            ders = [y for y in (der if isinstance(der, (list, tuple)) else [der]) if isinstance(y, G.base.Tensor) and type(y) is type(X) and y.array.shape == X.array.shape]
+            for y in ders[:1]:
+                for ib, k in consumers:
+                    nB, aB, fB, cmpB = ops[ib]
+                    a = [pool[n] for n in aB]
+                    a[k] = y
+                    b = list(a)
+                    try:
+                        b[k] = fresh(y)
+                    except Exception:  # noqa: BLE001
+                        continue
+                    s1, r1 = run(fB, a)
+                    s2, r2 = run(fB, b)
+                    n_eval += 1
+                    if s1 != s2:
+                        if len(fails) < 5:
+                            fails.append((Fail("MISMATCH", f"history-dependent-exception:{nA}->{nD}->{nB}", f"{s1}/{s2}"), c))
+                        continue
+                    if s1 == "exc":
+                        continue
+                    cm = cmpB if cmpB != "skip" else "auto"
+                    if cm == "auto" and isinstance(r1, (list, tuple)) and r1 and all(isinstance(z, G.base.Tensor) for z in r1):
+                        cm = "multiset"
+                    ok, detail = O.same(r1, r2, cm, 1e-6)
+                    if not ok and len(fails) < 5:
+                        fails.append((Fail("MISMATCH", f"history-dependent:{nA}->{nD}->{nB}", str(detail)[:200]), c))
+    return Batch(n_eval, n_eval, fails, [c] if n_eval else [], {f"d{d}": n_eval})
+
+
 LAWS = [
     Law("purity_machine", None, None, drive=drive, budget={"quick": 640, "thorough": 12000}, shard=40,
         rule="rule-based state machine over a shared pool: snapshots of all operands, results and module constants after every step; re-asked queries are bit-identical",
         mandatory=("result-reused", "reask-after-gap", "d2", "d3")),
 ]
-REPLAY = {"purity_machine": replay_case}
+LAWS.append(
+    Law("query_derive_query", None, run_qdq, enumerate=qdq_cases, enum_shards=16,
+        exhaustive=lambda tier: {"name": "all (A, D, B) operation triples on every pool object of two fixed pools per dimension: A queries X, D derives an object of X's type, B consumes it", "size": 0, "exhaustive": True},
+        rule="B(object derived after a query) == B(history-free copy): cached attributes must not leak stale data into derived objects")
+)
+
+
+def replay_qdq(case):
+    b = run_qdq(case)
+    return [f for f, _ in b.fails]
+
+
+REPLAY = {"purity_machine": replay_case, "query_derive_query": replay_qdq}
